@@ -338,7 +338,19 @@ impl<S: WebSocket, T: TimestampProvider> Task<S, T> {
         poll_fn(|cx| self.ws.lock().poll_close_unpin(cx)).await.ok();
         // The above line only closes the `Sink`. Before we terminate connections,
         // we dispatch the remaining frames in the `Source` to our streams.
-        while let Some(Ok(msg)) = poll_fn(|cx| self.ws.lock().poll_next_unpin(cx)).await {
+        // Unless we are the side closing a healthy connection, only take what is already
+        // there: the peer has either ended the `Source` or stopped responding (transport
+        // error, keepalive timeout), and waiting for it would keep every stream hanging.
+        while let Some(Ok(msg)) = poll_fn(|cx| {
+            let next = self.ws.lock().poll_next_unpin(cx);
+            if should_drain_msg_rx || next.is_ready() {
+                next
+            } else {
+                Poll::Ready(None)
+            }
+        })
+        .await
+        {
             debug!("processing remaining message after closure {msg:?}");
             self.process_message(msg, true).await.ok();
         }
